@@ -87,6 +87,20 @@ def _f_const(kind):
     return f
 
 
+def _f_valid(kind):
+    """a 3x3 VALID consumer: the operator a PAD in front of it is folded into (hardware padding)"""
+    def f(b, y):
+        yt = b.t(y)
+        if not _q1(yt) or len(yt.shape) != 4 or yt.shape[1] < 3 or yt.shape[2] < 3 or yt.shape[3] > 64:
+            return None
+        if kind == "CONV_2D":
+            return b.conv(y, 4, (3, 3), (1, 1), (1, 1), "VALID", per_channel=False)
+        if kind == "DEPTHWISE_CONV_2D":
+            return b.dwconv(y, (3, 3), (1, 1), (1, 1), "VALID", per_channel=False)
+        return b.pool(y, "AVERAGE_POOL_2D", (3, 3), (1, 1), "VALID")
+    return f
+
+
 # name -> (where, builder).  LUT activations are merged into the producer only on accelerators with reserved LUT banks.
 NEIGHBOURS = [
     ("TANH", "after", _f_unary("TANH")), ("LOGISTIC", "after", _f_unary("LOGISTIC")), ("LEAKY_RELU", "after", _f_unary("LEAKY_RELU")),
@@ -95,8 +109,10 @@ NEIGHBOURS = [
     ("QUANTIZE", "after", _f_quantize), ("RESHAPE", "after", _f_reshape), ("EXPAND_DIMS/SQUEEZE", "after", _f_expand),
     ("ADD const", "after", _f_const("ADD")), ("MUL const", "after", _f_const("MUL")),
     ("PAD", "before", None),
+    ("CONV_2D 3x3 VALID", "after", _f_valid("CONV_2D")), ("AVERAGE_POOL_2D 3x3 VALID", "after", _f_valid("AVERAGE_POOL_2D")),
 ]
 LUT_NEIGHBOURS = ("TANH", "LOGISTIC", "LEAKY_RELU", "HARD_SWISH")
+FOLD = ("CONV_2D 3x3 VALID", "AVERAGE_POOL_2D 3x3 VALID")     # what a PAD in front is folded into
 _STATE = {"per_case": 3, "ctr": 0}
 
 
@@ -137,12 +153,13 @@ def _one(rng, builder, dtype, ifm, post, embed, neighbour=None):
     return net
 
 
-def single(rng, builder, dtype="int8", ifm=(1, 8, 8, 4), post=None, neighbours=None, nbk=None):
+def single(rng, builder, dtype="int8", ifm=(1, 8, 8, 4), post=None, neighbours=None, nbk=None, also=()):
     """the operator built by `builder(b, x)` (a) alone on a fresh input, (b) between accelerated neighbours
     (1x1 CONV_2D / RELU -> X -> 1x1 CONV_2D / RELU), (c) next to operators that later passes may merge with it:
-    X -> LUT activation / RELU-type activation / QUANTIZE / RESHAPE-like / ADD, MUL with a constant, PAD -> X.
+    X -> LUT activation / RELU-type activation / QUANTIZE / RESHAPE-like / ADD, MUL with a constant / 3x3 VALID convolution or
+    average pool (what a PAD is folded into), PAD -> X.
     `neighbours`: indices into NEIGHBOURS; default = `_STATE["per_case"]` of them in rotation (quick: 3, or `nbk` for the
-    large sweeps; thorough: every kind)."""
+    large sweeps; thorough: every kind); `also`: names of kinds that are always included."""
     v = Variants()
     for suffix, embed in (("", False), (" [between NPU ops]", True)):
         net = _one(rng, builder, dtype, ifm, post, embed)
@@ -155,6 +172,7 @@ def single(rng, builder, dtype="int8", ifm=(1, 8, 8, 4), post=None, neighbours=N
         else:
             neighbours = [(_STATE["ctr"] * k + i) % len(NEIGHBOURS) for i in range(k)]
             _STATE["ctr"] += 1
+    neighbours = list(neighbours) + [i for i, nb in enumerate(NEIGHBOURS) if nb[0] in also and i not in neighbours]
     for n in neighbours:
         net = _one(rng, builder, dtype, ifm, post, False, n)
         if net is not None:
@@ -422,6 +440,7 @@ def cases(rng, thorough=False):
     def out_type(b, x):
         o = b.binary("ADD", x, x)
         b.t(o).dtype = "uint8"
+        b.t(o).zps = [b.t(o).zps[0] + 128]      # a zero point inside the range of the new type
         return o
     add("ADD int8 -> uint8", single(rng, out_type, ifm=(1, 4, 4, 8)))
     # ---- unary ------------------------------------------------------------------------------------------------------
@@ -504,14 +523,14 @@ def cases(rng, thorough=False):
     for pads, lab in (([[0, 0], [1, 1], [1, 1], [0, 0]], "hw"), ([[0, 0], [0, 0], [0, 0], [1, 1]], "c"), ([[1, 0], [0, 0], [0, 0], [0, 0]], "n"),
                       ([[0, 0], [2, 0], [0, 3], [0, 0]], "hw asym"), ([[0, 0], [1, 1], [1, 1], [2, 2]], "hwc"), ([[0, 0], [0, 0], [0, 0], [0, 0]], "zero")):
         for dt in ("int8", "uint8", "int16"):
-            add(f"PAD {lab} {dt}", single(rng, lambda b, x, pads=pads: b.pad(x, pads), dtype=dt))
+            add(f"PAD {lab} {dt}", single(rng, lambda b, x, pads=pads: b.pad(x, pads), dtype=dt, also=FOLD))
 
         def pad64(b, x, pads=pads):
             o = b.pad(x, pads)
             pt = b.t(b.net.ops[-1].inputs[1])
             pt.dtype, pt.data = "int64", np.asarray(pt.data).astype(np.int64)
             return o
-        add(f"PAD {lab} int64 paddings", single(rng, pad64))
+        add(f"PAD {lab} int64 paddings", single(rng, pad64, also=FOLD))
 
     def pad3(b, x):
         xt = b.t(x)
@@ -525,7 +544,27 @@ def cases(rng, thorough=False):
         o = b.pad(x, [[0, 0], [1, 1], [1, 1], [0, 0]])
         b.t(o).shape[1] += 1
         return o
-    add("PAD wrong output shape", single(rng, pad_wrong))
+    add("PAD wrong output shape", single(rng, pad_wrong, also=FOLD))
+
+    # PADs that stay on the CPU for a reason that leaves the padding itself foldable (1 row / column): the VALID consumer is accelerated
+    def pad_cpu(how):
+        def f(b, x):
+            o = b.pad(x, [[0, 0], [1, 1], [1, 1], [0, 0]])
+            op = b.net.ops[-1]
+            if how == "dynamic paddings":
+                pt = b.t(op.inputs[1])
+                pt.data = None
+                b.net.inputs.append(op.inputs[1])
+            elif how == "output one row more":
+                b.t(o).shape[1] += 1
+            elif how == "output type int16":
+                b.t(o).dtype = "int16"
+            elif how == "no quantisation on input":
+                b.t(op.inputs[0]).scales, b.t(op.inputs[0]).zps = None, None
+            return o
+        return f
+    for how in ("dynamic paddings", "output one row more", "output type int16", "no quantisation on input", "batch 2"):
+        add(f"PAD left on the CPU ({how})", single(rng, pad_cpu(how), ifm=(2, 8, 8, 4) if how == "batch 2" else (1, 8, 8, 4), also=FOLD))
     # ---- reshape / concat / split / strided slice ---------------------------------------------------------------------------------
     for ifm, ofm in (((1, 4, 4, 8), (1, 128)), ((1, 4, 4, 8), (1, 1, 16, 8)), ((4, 4, 4, 8), (4, 128)), ((1, 4, 4, 8), (2, 2, 4, 8))):
         add(f"RESHAPE {ifm}->{ofm}", single(rng, lambda b, x, ofm=ofm: b.reshape(x, list(ofm)), ifm=ifm))
